@@ -57,6 +57,16 @@ def handler (cmd : String) : P String := do
     let npairs ← nat
     let ms ← list (do let n ← str; let k ← metricKind; pure (n, k))
     pure (" ".intercalate ((analyzeTrace ms variant npairs).map showEvent))
+  | "ptrace" =>
+    let ms ← list (do
+      let n ← str
+      let t ← tok
+      match t with
+      | "A" => do let a ← aggrCols; pure (n, PowerKind.aggregated a)
+      | "P" => pure (n, PowerKind.plain)
+      | "N" => pure (n, PowerKind.notPower)
+      | _ => throw s!"bad power kind {t}")
+    pure (" ".intercalate ((solvePowerTrace ms).map showEvent))
   | _ => throw s!"unknown command {cmd}"
 
 def main : IO Unit := do loop handler (← IO.getStdin)
